@@ -93,7 +93,8 @@ Ensure(m, i) == IF m[i] # Null THEN m ELSE IF Adapter /\ Readable(i) THEN [m EXC
 Exists(i) == Ensure(mem, i)[i] # Null
 \* get_instance: touch, then sweep
 Access(m, i) == Sweep(Touch(m, i, now), now)
-Externalise(m, i) == [to |-> m[i].to, kset |-> m[i].kset, sess |-> m[i].sess]
+\* (the advisory lock of an open stream is not part of the externalised state)
+Externalise(m, i) == [to |-> m[i].to, kset |-> m[i].kset, sess |-> IF m[i].sess = NoSess THEN NoSess ELSE [m[i].sess EXCEPT !.lock = FALSE]]
 Saved(st, m, i) == IF Adapter /\ m[i] # Null THEN [st EXCEPT ![i] = Externalise(m, i)] ELSE st
 SeenAcc(i) == known' = [known EXCEPT ![i] = [@ EXCEPT !.lastAcc = now]]
 
@@ -113,6 +114,14 @@ Start(i, to) ==     \* POST /start-instance {timeout}
     /\ ideal' = [ideal EXCEPT ![i] = [kset |-> KSet0, sess |-> NoSess]]
     /\ UNCHANGED <<now, store>>
     /\ Log([op |-> "Start", i |-> i, to |-> to, status |-> 200, alive |-> Alive(mem')])
+
+StartMany(I, to) ==  \* POST /start-instances {instances: n, timeout}: n independent instances at once
+    /\ "StartMany" \in Ops /\ Cardinality(I) = 2 /\ \A i \in I : known[i] = Null /\ mem[i] = Null
+    /\ mem' = [i \in Inst |-> IF i \in I THEN [last |-> now, to |-> to, kset |-> KSet0, sess |-> NoSess] ELSE Sweep(mem, now)[i]]
+    /\ known' = [i \in Inst |-> IF i \in I THEN [to |-> to, lastAcc |-> now, lost |-> FALSE] ELSE known[i]]
+    /\ ideal' = [i \in Inst |-> IF i \in I THEN [kset |-> KSet0, sess |-> NoSess] ELSE ideal[i]]
+    /\ UNCHANGED <<now, store>>
+    /\ Log([op |-> "StartMany", is |-> I, to |-> to, status |-> 200, alive |-> Alive(mem')])
 
 Begin(i, sc, kv) ==  \* POST /<i>/begin-session (settings: constant k := kv unless kv = 0)
     /\ "Begin" \in Ops /\ known[i] # Null /\ SelfAccessOK(i) /\ ~Locked(mem, i)
@@ -205,7 +214,7 @@ StepsN(i, n, set) ==
 \* result is produced), further results are produced one by one as the client reads them, and the response ends or the
 \* client goes away (the lock is released).  Between these steps the server serves other requests.
 StreamOpen(i, set) ==
-    /\ "Stream" \in Ops /\ ~Adapter /\ known[i] # Null /\ mem[i] # Null /\ ~Expired(mem, i, now)
+    /\ "Stream" \in Ops /\ known[i] # Null /\ mem[i] # Null /\ ~Expired(mem, i, now)
     /\ mem[i].sess # NoSess /\ mem[i].sess.clock <= Stop /\ ideal[i].sess # NoSess
     /\ IF mem[i].sess.lock
        THEN /\ mem' = Access(mem, i) /\ UNCHANGED <<store, ideal>> /\ SeenAcc(i)
@@ -227,7 +236,8 @@ StreamNext(i) ==
 StreamClose(i) ==
     /\ "Stream" \in Ops /\ Locked(mem, i)
     /\ mem' = [mem EXCEPT ![i].sess.lock = FALSE] /\ ideal' = [ideal EXCEPT ![i].sess.lock = FALSE]
-    /\ UNCHANGED <<now, store, known>>
+    /\ store' = Saved(store, mem', i)              \* however the stream ends, what it produced is externalised
+    /\ UNCHANGED <<now, known>>
     /\ Log([op |-> "StreamClose", i |-> i, status |-> 200, ended |-> mem[i].sess.clock > Stop])
 
 Results(i) ==        \* GET /<i>/session-results
@@ -282,7 +292,7 @@ LoadState ==         \* POST /load-state : every readable file replaces the inst
     /\ Log([op |-> "LoadState", status |-> 200, alive |-> Alive(mem')])
 
 Crash ==             \* the process is lost; a new server is started on the same external state
-    /\ "Crash" \in Ops /\ Adapter
+    /\ "Crash" \in Ops /\ Adapter /\ \A i \in Inst : ~Locked(mem, i)
     /\ mem' = [i \in Inst |-> IF Readable(i) THEN Restored(i) ELSE Null]
     /\ known' = [i \in Inst |-> IF Readable(i) THEN [known[i] EXCEPT !.lastAcc = now]
                                 ELSE IF known[i] # Null THEN [known[i] EXCEPT !.lost = TRUE] ELSE known[i]]   \* never externalised or damaged: lost
@@ -305,7 +315,7 @@ Refused(kind, i, cred) ==
 Init == /\ now = 0 /\ mem = [i \in Inst |-> Null] /\ store = [i \in Inst |-> Null]
         /\ ideal = [i \in Inst |-> Null] /\ known = [i \in Inst |-> Null] /\ hist = <<>> /\ resp = [op |-> "Init"]
 
-DoStart == \E i \in Inst, to \in Timeouts : Start(i, to)
+DoStart == (\E i \in Inst, to \in Timeouts : Start(i, to)) \/ (\E I \in SUBSET Inst, to \in Timeouts : StartMany(I, to))
 DoBegin == \E i \in Inst, sc \in Scen, kv \in KVals : Begin(i, sc, kv)
 DoEnd   == \E i \in Inst : End(i)
 DoStep  == \E i \in Inst, set \in (StepVals \cup {0 - 1}) : Step(i, set)
@@ -329,7 +339,7 @@ Lost(i) == mem[i] = Null /\ ~(Adapter /\ Readable(i))
 AliveOK == \A i \in Inst : (known[i] # Null /\ ~known[i].lost /\ now - known[i].lastAcc < known[i].to)
                              => (mem[i] # Null \/ (Adapter /\ store[i] # Null))
 \* C17 upper bound: right after a sweep-triggering request nothing expired stays in memory
-SweepOps == {"Start", "Begin", "End", "Step", "Steps", "Results", "KeepAlive", "Metrics"}
+SweepOps == {"Start", "StartMany", "Begin", "End", "Step", "Steps", "Results", "KeepAlive", "Metrics"}
 GoneOK == (LastResp.op \in SweepOps /\ LastResp.status = 200)
             => \A i \in Inst : mem[i] # Null => now < mem[i].last + mem[i].to
 \* C20 / C19: whatever happened (sweeps, restores, crashes), a step answers what the uninterrupted
